@@ -438,7 +438,7 @@ GENS = {
                          NSPEC_T * len(OFFSET_KINDS), exhaustive=True),
     "reject": Gen(case_reject, 4097 // 64 + 1, 4097 // 64 + 1, exhaustive=True),
     "detect": Gen(case_detect, NSPEC_Q * len(SAMPLE_CLASSES) * 12,
-                  NSPEC_T * len(SAMPLE_CLASSES) * 40),
+                  NSPEC_T * len(SAMPLE_CLASSES) * 400),
 }
 MIN_EVALS = {"demodulate-ml": 1000, "round-trip": 100, "reject-M": 3000,
              "reject-index": 50, "unit-energy": 10, "distinct-points": 10,
